@@ -42,7 +42,8 @@ pub struct Cfg {
     pub min: usize,
     /// thread programs, e.g. ["W", "D"] or ["WD", "DW"]
     pub programs: Vec<&'static str>,
-    /// token bucket only: 0 = TokenBucketBudget::new, 1 = the public builder with max_tokens then
+    /// AIMD: 0 = AimdBudget::new, otherwise the public builder (conservation and the bound are
+    /// judged; the ceiling is not visible through the trait). Token bucket: 0 = TokenBucketBudget::new, 1 = the public builder with max_tokens then
     /// initial_tokens, 2 = the builder with initial_tokens then max_tokens
     pub built: u8,
 }
@@ -50,13 +51,22 @@ pub struct Cfg {
 impl Cfg {
     pub fn label(&self) -> String {
         if self.aimd {
-            format!("aimd min={} max={} start={} deposit={} withdraw={} programs={:?}", self.min, self.max, self.initial, self.deposit, self.withdraw, self.programs)
+            format!("aimd min={} max={} start={} deposit={} withdraw={} programs={:?}{}", self.min, self.max, self.initial, self.deposit, self.withdraw, self.programs, if self.built != 0 { " built" } else { "" })
         } else {
             format!("token_bucket initial={} max={} programs={:?}{}", self.initial, self.max, self.programs, match self.built { 1 => " built(max,initial)", 2 => " built(initial,max)", _ => "" })
         }
     }
     fn make(&self) -> Budget {
-        if self.aimd {
+        if self.aimd && self.built != 0 {
+            // made by the public builder: only the trait is visible (no current_max)
+            let b = tower_resilience_retry::RetryBudgetBuilder::new().aimd().min_budget(self.min).max_budget(self.max).deposit_amount(self.deposit).withdraw_amount(self.withdraw).build();
+            let mut guard = 0;
+            while b.balance() > self.initial && guard < 100 {
+                b.try_withdraw();
+                guard += 1;
+            }
+            Budget::Built(b)
+        } else if self.aimd {
             let b = AimdBudget::new(self.min, self.max, self.deposit, self.withdraw, 0.5);
             // AimdBudget starts full; bring it down to `initial` tokens sequentially
             let mut guard = 0;
@@ -220,6 +230,12 @@ pub fn configs(tier: Tier) -> Vec<Cfg> {
             v.push(Cfg { aimd: true, initial, max, deposit, withdraw, min, programs: p.clone(), built: 0 });
         }
     }
+    // AIMD budgets made by the public builder, with unequal amounts (start full)
+    for (min, max, initial, deposit, withdraw) in [(1usize, 4usize, 4usize, 1usize, 3usize), (1, 3, 3, 2, 1)] {
+        for p in programs.iter().take(3) {
+            v.push(Cfg { aimd: true, initial, max, deposit, withdraw, min, programs: p.clone(), built: 1 });
+        }
+    }
     // debugging aid: VERIF_ONLY=<substring of a configuration label>
     if let Ok(only) = std::env::var("VERIF_ONLY") {
         v.retain(|c| c.label().contains(&only));
@@ -238,8 +254,9 @@ pub fn check_cfg(cfg: &Cfg, tier: Tier, rep: &mut Report) {
     let spurious = tier == Tier::Thorough;
     let spec = cfg.spec(spurious);
     let seq = ilv::sequential_outcomes(&spec, |b| b.observe());
-    let componentwise = if cfg.aimd { aimd_componentwise_outcomes(cfg) } else { BTreeSet::new() };
-    if cfg.aimd && !seq.iter().all(|o| componentwise.contains(o)) {
+    let built_aimd = cfg.aimd && cfg.built != 0;
+    let componentwise = if cfg.aimd && !built_aimd { aimd_componentwise_outcomes(cfg) } else { BTreeSet::new() };
+    if cfg.aimd && !built_aimd && !seq.iter().all(|o| componentwise.contains(o)) {
         rep.machinery.push(format!("{}: the component-wise AIMD reference does not contain the sequential outcomes {:?} vs {:?}", cfg.label(), seq, componentwise));
     }
     // what the budget was funded with: the configured initial tokens (the AIMD budget starts
@@ -278,7 +295,7 @@ pub fn check_cfg(cfg: &Cfg, tier: Tier, rep: &mut Report) {
                     choices.to_vec(),
                 ));
             }
-            if !seq.contains(&outcome) {
+            if !built_aimd && !seq.contains(&outcome) {
                 let kind = if componentwise.contains(&outcome) { "ceiling_not_linearizable" } else { "not_linearizable" };
                 if kind == "not_linearizable" || !local_found.iter().any(|f| f.0 == kind) {
                     local_found.push((kind.into(), format!("concurrent outcome {outcome} equals no sequential execution {:?}", seq), choices.to_vec()));
